@@ -99,6 +99,23 @@ def run(ctx):
                               {"cfg": c.id, "run": tag, "paths": d[:50]})
     ctx.extra["cli_configurations"] = len(cfgs)
     ctx.extra["cli_runs"] = sum(len(v) for v in by_cfg.values())
+    # --- (a') the same builds under the race detector ------------------------------------------
+    from . import race
+    rb = race.build(ctx)
+    rl = race.logdir(ctx, "prebuild")
+    picks = [c for c in cfgs if by_cfg[c]["A"].rc == 0]
+    picks = ([c for c in picks if c.full == "full"][:1] + [c for c in picks if c.full != "full"][:1]) if ctx.tier == "quick" else picks[:12]
+    for c, b in pmap(lambda c: (c, matrix.run_build(ctx, c, tag="race", tap=False, bindir=rb, extra_env={"GORACE": race.gorace(rl)}, timeout=1500)), picks):
+        ctx.case(digest(c.id, "race"))
+        if b.rc != 0:
+            ctx.violation("C02/rerun-failed/%s/race" % c.id, "the -race build of prebuild failed (rc %s) where the plain one succeeded: %s" % (b.rc, b.log[-300:]), {"cfg": c.id})
+        else:
+            d = [k for k in diff_manifest(full_manifest(by_cfg[c]["A"]), full_manifest(b)) if not k.startswith("(tap)")]
+            if d:
+                ctx.violation("C02/rerun-differs/%s" % d[0], "%s: the run under the race detector differs from run A in %d path(s): %s" % (c.id, len(d), ", ".join(d[:6])),
+                              {"cfg": c.id, "paths": d[:50]})
+        shutil.rmtree(b.root, ignore_errors=True)
+    race.judge(ctx, "C02", rl, "prebuild, %d configurations" % len(picks), len(picks))
     # --- (b), (c) API level ------------------------------------------------------------
     api_level(ctx, by_cfg)
     for bs in by_cfg.values():
